@@ -223,6 +223,101 @@ Fixpoint deliver_txs (now : Z) (ts : list tx) (s : cstate) : cstate * list bool 
       (s2, c :: cs)
   end.
 
+(** * Supply accounting: what each step of a block contributes to the acanto supply.
+    These are the amounts of the bank's mint / burn events, written as explicit
+    formulas of the step's inputs -- NOT as differences of the supply -- so that
+    "the supply changes by exactly these" (Proofs/ChainSupply.v) has content. *)
+
+(* x/inflation: what the end-of-epoch calls of this block have to mint -- for every call of the
+   configured identifier while inflation is enabled, the integer part of the stored provision
+   (Inflation.due_amount); 0 when the begin-blocker panics *)
+Definition minted_of (b : blk) (h : Z) (s : cstate) : Z :=
+  let '(_, hs) := begin_block (b_time b) h (c_epochs s) in
+  match Inflation.run_hooks_log (c_day s) (b_oracle b) hs (c_infl s) with
+  | Some (_, l) => Inflation.zsum l
+  | None => 0
+  end.
+
+(* x/csr: burned by a successful post-tx hook -- nothing when CSR is disabled or no gas was used;
+   otherwise the fee (gas used x price) minus the csr fee (fee x share, truncated) when the target
+   is registered to an NFT after the events of the receipt, and the whole fee when it is not
+   (contract creation, unregistered target) *)
+Definition csr_burn_of (t : Csr.tx) (r : Csr.state) : Z :=
+  if negb (Csr.enable (Csr.cfg r)) then 0 else
+  match Csr.turnstile (Csr.cfg r) with
+  | None => 0
+  | Some ts =>
+      if Csr.tx_gas_used t =? 0 then 0 else
+      match Csr.fee_of t with
+      | None => 0
+      | Some fee =>
+          let g := Csr.process_events (Csr.tx_code t) ts (Csr.tx_logs t) (Csr.reg r) in
+          match match Csr.tx_to t with Some c => Csr.byc g c | None => None end with
+          | None => fee
+          | Some _ =>
+              match Csr.csr_fee_of fee (Csr.share (Csr.cfg r)) with
+              | Some cf => fee - cf
+              | None => 0
+              end
+          end
+      end
+  end.
+
+(* x/coinswap: the burned part of the pool-creation fee (amount minus the tax that goes to the
+   fee collector) -- only for a liquidity addition that creates the pool, and only when the fee
+   is charged in the standard coin; every other coinswap message and bank transfer: 0 *)
+Definition swap_burn_of (w : Coinswap.state) (o : Coinswap.op) : Z :=
+  match o with
+  | Coinswap.AddLiq _ (Coinswap.Tok n) _ _ _ _ =>
+      match Coinswap.lookup_pool n (Coinswap.st_pools w) with
+      | Some _ => 0
+      | None =>
+          let p := Coinswap.st_params w in
+          if Coinswap.denom_eqb (Coinswap.p_cfee_denom p) Coinswap.Std
+          then match Coinswap.tax_part (Coinswap.p_cfee_amt p) (Coinswap.p_tax p) with
+               | Some tax => Coinswap.p_cfee_amt p - tax
+               | None => 0
+               end
+          else 0
+      end
+  | _ => 0
+  end.
+
+(* the csr state the hook of an Ethereum transaction runs on: the fee is in the collector *)
+Definition csr_with_fee (t : Csr.tx) (r0 : Csr.state) : Csr.state :=
+  match Csr.fee_of t with
+  | Some fee =>
+      let m0 := Csr.mon r0 in
+      Csr.mkState (Csr.reg r0)
+        (Csr.mkMoney (Csr.collector m0 + fee) (Csr.module_acct m0) (Csr.supply m0) (Csr.ts_acct m0) (Csr.ts_bal m0))
+        (Csr.cfg r0)
+  | None => r0
+  end.
+
+(* burned by an ACCEPTED transaction, evaluated on the state its messages start from *)
+Definition tx_burn_of (t : tx) (s : cstate) : Z :=
+  match t with
+  | TxSwap o => swap_burn_of (c_swap s) o
+  | TxEvm _ _ _ _ evm_ok e =>
+      if evm_ok
+      then match Csr.post_tx e (csr_with_fee e (c_csr s)) with
+           | Some _ => csr_burn_of e (csr_with_fee e (c_csr s))
+           | None => 0                       (* a failing hook reverts itself: nothing burned *)
+           end
+      else 0                                 (* failed EVM execution: no hook *)
+  | TxParams _ _ => 0
+  | TxOther _ => 0
+  end.
+
+(* per transaction of a block: the burn of an accepted one, 0 for a rejected one *)
+Fixpoint burns_of (now : Z) (ts : list tx) (s : cstate) : list Z :=
+  match ts with
+  | [] => []
+  | t :: r =>
+      let '(s1, ok) := deliver_tx now s t in
+      (if ok then match ante t s with Some sa => tx_burn_of t sa | None => 0 end else 0) :: burns_of now r s1
+  end.
+
 (** * EndBlock: gov executes the proposals that passed; a failing message fails the proposal *)
 Fixpoint end_blocker (us : list param_update) (s : cstate) : cstate :=
   match us with
@@ -262,17 +357,20 @@ Definition genesis_node (g : cstate) : node := mkNode g g 0.
 Record block_result := mkRes {
   r_halted : bool;         (* BeginBlock panicked: the block is not committed, the node stays where it is *)
   r_codes : list bool;     (* per transaction: accepted *)
-  r_digest : list Z        (* the AppHash stand-in after Commit *)
+  r_digest : list Z;       (* the AppHash stand-in after Commit *)
+  r_minted : Z;            (* mint events of the begin-blocker (x/inflation) *)
+  r_burned : list Z        (* per transaction: its burn event (csr hook / coinswap creation fee) *)
 }.
 
 Definition run_block (b : blk) (n : node) : node * block_result :=
   let h := height n + 1 in
   match begin_blocker b h (committed n) with
-  | None => (n, mkRes true [] (digest (committed n)))
+  | None => (n, mkRes true [] (digest (committed n)) 0 [])
   | Some s1 =>
       let '(s2, codes) := deliver_txs (b_time b) (b_txs b) s1 in
       let s3 := end_blocker (b_gov b) s2 in
-      (mkNode s3 s3 h, mkRes false codes (digest s3))       (* Commit: check state := committed *)
+      (mkNode s3 s3 h,                                      (* Commit: check state := committed *)
+       mkRes false codes (digest s3) (minted_of b h (committed n)) (burns_of (b_time b) (b_txs b) s1))
   end.
 
 Fixpoint run_blocks (bs : list blk) (n : node) : node * list block_result :=
